@@ -58,7 +58,7 @@ Qed.
 
 Lemma c10_oracle_sound_raw c : c10_valid c -> c10_check_raw c = true -> c10_oracle c = None.
 Proof.
-  destruct c as [k r out|ik out|k r out|k1 r1 k2 r2 z|p out|b out|r out|p k r inside|a b k r inside|cfg lo hi k r inside];
+  destruct c as [k r out|ik out|k r out|k1 r1 k2 r2 z|p out|b out|p k r inside|a b k r inside|cfg lo hi k r inside];
     cbn [c10_valid c10_check_raw c10_oracle]; intros V C; try reflexivity.
   - rewrite decode_encode in C by exact V. apply dec_eqb_eq in C. subst out.
     cbn [dec_eqb]. rewrite beqb_refl, N.eqb_refl. reflexivity.
@@ -117,3 +117,29 @@ Proof.
   intros C. apply c10_oracle_sound; [|exact C].
   unfold c10_check in C. apply andb_true_iff in C as [V _]. apply c10_validb_sound; exact V.
 Qed.
+
+(* ---- audit items ---- *)
+
+(* internalKey[4:len-9] would panic for 9 <= len < 13; that slice is never reached: the byte at len-9 then
+   lies inside the magic prefix, none of whose bytes is the split byte, so Decode has already answered an error *)
+Lemma decode_short ik : (length ik < 13)%nat -> forall k r, decode ik <> DecOk k r.
+Proof.
+  intros L k r. unfold decode.
+  destruct (Nat.ltb (length ik) 4) eqn:E4; [discriminate|].
+  destruct (beqb (firstn 4 ik) magic) eqn:EM; cbn [negb]; [|discriminate].
+  destruct (Nat.ltb (length ik) 9) eqn:E9; [discriminate|].
+  apply beqb_eq in EM.
+  destruct ik as [|a [|b [|c [|d rest]]]]; try (cbn in E4; discriminate).
+  cbn [firstn] in EM. unfold magic in EM. injection EM as -> -> -> ->.
+  apply Nat.ltb_ge in E9. cbn [length] in L, E9.
+  assert (H : (length rest = 5 \/ length rest = 6 \/ length rest = 7 \/ length rest = 8)%nat) by lia.
+  cbn [length].
+  destruct H as [H|[H|[H|H]]]; rewrite H; cbn; discriminate.
+Qed.
+
+Lemma with_slash_has_end p : prefix_end_opt (with_slash p) <> None.
+Proof. destruct (with_slash_end p) as [e E]. rewrite E. discriminate. Qed.
+
+Lemma encode_contiguous0 k k' r' r2 : alpha k -> alpha k' -> r' < two64 -> r2 < two64 ->
+  bcmp (encode k 0) (encode k' r') <> Gt -> bcmp (encode k' r') (encode k r2) <> Gt -> k' = k.
+Proof. intros Ak Ak' H1 H2. apply (encode_contiguous k 0 k' r' r2 Ak Ak'); [unfold two64; lia|exact H1|exact H2]. Qed.
